@@ -57,6 +57,21 @@ NOTES = {
  'C17-s5': 'MISSED (random systems never have two poles of equal natural frequency); caught after the designed region "coincident natural frequencies" (two modes, or a mode and a real pole, tuned to f_b = f_a(1+offset), offset 0 and 1e-6) was added on the exact and the data route',
  'C18-s5': 'MISSED (complex128 / float64 arrays only); caught after the storage dtype of the shapes became an axis (int64, int32, float32, float64, complex64, complex128; every ordered pair for the two-argument indicators)',
  'C20-s5': 'MISSED (every figure drawn in a fresh state, order step 1 only); caught after history cases were added: a second drawing of the same table shape in the same (forked, otherwise untouched) process after the same chart / the other hide_poles value / another table / another step, steps 1, 2, 3',
+ 'C01-s6': 'MISSED (tables were read straight after run()); caught after read-only operations were interleaved (mc/looks.py): on every 29th free-decay case plot_stab / plot_cluster / plot_svalH are called with a frequency window between run and the reading of the tables / mpe',
+ 'C02-s6': 'MISSED (PoSER object built after all results existed, merged once); caught after order of operations on one existing PoSER object was added (replace / rollback+re-add / re-run / re-extract in a subset of setups, sequences C-M, M-C-M, C-M-M, C-M-C-M) on the class and end-to-end routes',
+ 'C03-s6': 'MISSED (no failing call ever made); caught after a third class-route pass was added in which one or two preprocessing calls with illegal arguments raise and are caught before the algorithms are added (21 calls, 5 patterns)',
+ 'C05-s6': "MISSED (methodSy='per' only); caught after the blanking and counting clauses are also judged for methodSy='cor' (nxseg 32, 1024) on the true-coefficient route: reported poles minus the window term must be exactly the roots with non-positive real part",
+ 'C06-s6': 'MISSED (zero-based frequency axes only); caught after the frequency axis became a lattice axis at function level (10 axes cropped at the lower end / off the multiples of the spacing / at both ends) and the stored decomposition is handed to FDD_mpe cropped to four bands end-to-end',
+ 'C07-s6': 'MISSED (mpe and the function only); caught after EFDD/FSDD.mpe_from_plot through the real dialog driven head-less was added as a third route with seven frequency views (lower limit 0 and > 0)',
+ 'C08-s6': 'MISSED (nothing between building the setup and running); caught after one pair in 24 calls plot_data / plot_ch_info / plot_STFT of the setup before BOTH runs (mc/looks.py)',
+ 'C10-s6': 'MISSED (labels compared with the tables straight after run()); caught after one class-route case in 97 stores the result on the algorithm, draws its charts with a window that leaves the highest reference-stable pole outside, and only then compares labels and stored tables (NaN poles must not carry the stable label)',
+ 'C12-s6': 'MISSED (well-conditioned records only; float reference good to eps*cond^2); caught after part 5 was added: near-redundant / delayed-copy / common-component references with cond(Yp) up to 1.3e7 judged against an exact rational reference with the unchanged tolerance',
+ 'C13-s6': 'MISSED (records of unit level only); caught after the overall level of the records became an axis (1e-9, 1e-6, 1e-3, 1e6) in all four parts, with common-gain-squared and complexness judgements',
+ 'C14-s6': 'MISSED (no failing call in the alphabet); caught after events were added in which a preprocessing call with an illegal argument raises and is caught - the setup must equal the unchanged model afterwards',
+ 'C15-s6': 'MISSED (every prototype setup filled by one add_algorithms call); caught after the way each setup was filled (one call / one call per algorithm) rotates over the PoSER constructor inputs',
+ 'C16-s6': 'MISSED (one session per fresh object); caught after the prior axis was added: the judged session opens on an algorithm object that already holds modes from mpe() or an earlier session, and what the algorithm holds afterwards is compared field by field with the same history on a fresh object',
+ 'C17-s6': 'not run against the earlier version: the interleaving of read-only operations (plot_stab with error bars before the variance table is read, one class-route case in three) was added first, for C01-s6; as shipped the class route read the table straight after run()',
+ 'C18-s6': 'MISSED (each call on fresh arrays, inputs not compared afterwards); caught after every call compares its arguments before/after (bytes, dtype, shape, strides) and ordered pairs (payload: triples) of indicator calls on the same array objects were added',
  'C20-s2': 'MISSED by the quick tier of the first version of C20 (CMIF with a frequency window only in the thorough tier); caught after the window was added to the quick tier',
 }
 def main():
